@@ -1,3 +1,3 @@
--- This module serves as the root of the `BEI` library.
--- Import modules here that should be built as part of the library.
-import BEI.Basic
+-- Root of the `BEI` library: the model, the driver and every property module.
+import BEI.Driver.Run
+import BEI.Props.C20
